@@ -10,6 +10,7 @@ Import ListNotations.
 
 Section Balance.
   Variables K V : Type.
+  Variable use_succ : bool -> bool -> bool.
 
   Notation tree := (tree K V).
   Notation path := (path K V).
@@ -352,20 +353,87 @@ Section Balance.
       apply IHr. congruence.
   Qed.
 
+  Lemma min_node_foc : forall t p n x p',
+    foc t p n -> min_node K V t p = (x, p') -> exists m, foc x p' m.
+  Proof.
+    induction t as [|c l IHl k v r IHr]; intros p n x p' Hf H; simpl in H.
+    - inv H. eauto.
+    - destruct l as [|lc ll lk lv lr].
+      + inv H. eauto.
+      + apply foc_left in Hf as (m & Hm). eapply IHl; eauto.
+  Qed.
+
+  Lemma min_node_nonE : forall t p, t <> E ->
+    exists c l k v r q, min_node K V t p = (T c l k v r, q).
+  Proof.
+    induction t as [|c l IHl k v r IHr]; intros p Hne; [congruence|].
+    destruct l as [|lc ll lk lv lr].
+    - simpl. eauto 10.
+    - change (min_node K V (T c (T lc ll lk lv lr) k v r) p)
+        with (min_node K V (T lc ll lk lv lr) (F K V DL c k v r :: p)).
+      apply IHl. congruence.
+  Qed.
+
+  Lemma foc_right_any : forall c l k v r p n k' v', foc (T c l k v r) p n ->
+    exists m, foc r (F K V DR c k' v' l :: p) m.
+  Proof.
+    intros c l k v r p n k' v' (Ht & Hp & Hc). inv Ht.
+    - exists n. split; auto. split; [constructor; auto|]. intros Hl. rewrite Hl in *. discriminate.
+    - exists n0. split; auto. split; [constructor; auto|]. intros _. exact I.
+  Qed.
+
+  Lemma max_kv_some : forall t, t <> E -> max_kv K V t <> None.
+  Proof.
+    induction t as [|c l IHl k v r IHr]; intros Hne; [congruence|].
+    destruct r as [|rc rl rk rv rr]; [simpl; discriminate|].
+    change (max_kv K V (T c l k v (T rc rl rk rv rr))) with (max_kv K V (T rc rl rk rv rr)).
+    apply IHr. congruence.
+  Qed.
+
+  Lemma min_kv_some : forall t, t <> E -> min_kv K V t <> None.
+  Proof.
+    induction t as [|c l IHl k v r IHr]; intros Hne; [congruence|].
+    destruct l as [|lc ll lk lv lr]; [simpl; discriminate|].
+    change (min_kv K V (T c (T lc ll lk lv lr) k v r)) with (min_kv K V (T lc ll lk lv lr)).
+    apply IHl. congruence.
+  Qed.
+
+  Lemma rem_pred_valid : forall xc xl xk xv xr p n, xl <> E ->
+    foc (T xc xl xk xv xr) p n -> exists r, rem_pred K V xc xl xr p = Ok r /\ rb_tree r.
+  Proof.
+    intros xc xl xk xv xr p n Hne Hf. unfold rem_pred.
+    destruct (max_kv K V xl) as [[pk pv]|] eqn:Hk.
+    - destruct (max_node_nonE xl (F K V DL xc pk pv xr :: p) Hne) as (c & l & k & v & r & q & Hm).
+      rewrite Hm.
+      destruct (foc_left_any _ _ _ _ _ _ _ pk pv Hf) as (m & Hf2).
+      eapply max_node_foc in Hm as (m' & Hm'); eauto.
+      eapply rem_node_valid; eauto.
+    - exfalso. eapply max_kv_some; eauto.
+  Qed.
+
+  Lemma rem_succ_valid : forall xc xl xk xv xr p n, xr <> E ->
+    foc (T xc xl xk xv xr) p n -> exists r, rem_succ K V xc xl xr p = Ok r /\ rb_tree r.
+  Proof.
+    intros xc xl xk xv xr p n Hne Hf. unfold rem_succ.
+    destruct (min_kv K V xr) as [[sk sv]|] eqn:Hk.
+    - destruct (min_node_nonE xr (F K V DR xc sk sv xl :: p) Hne) as (c & l & k & v & r & q & Hm).
+      rewrite Hm.
+      destruct (foc_right_any _ _ _ _ _ _ _ sk sv Hf) as (m & Hf2).
+      eapply min_node_foc in Hm as (m' & Hm'); eauto.
+      eapply rem_node_valid; eauto.
+    - exfalso. eapply min_kv_some; eauto.
+  Qed.
+
+  (* whichever in-order neighbour the source's donor rule picks *)
   Lemma rem_at_valid : forall xc xl xk xv xr p n,
-    foc (T xc xl xk xv xr) p n -> exists r, rem_at K V (T xc xl xk xv xr) p = Ok r /\ rb_tree r.
+    foc (T xc xl xk xv xr) p n -> exists r, rem_at K V use_succ (T xc xl xk xv xr) p = Ok r /\ rb_tree r.
   Proof.
     intros xc xl xk xv xr p n Hf. unfold rem_at.
     destruct xl as [|lc ll lk lv lr]; [eapply rem_node_valid; eauto|].
-    destruct xr as [|rc rl rk rv rr];
-      [try (destruct (max_kv K V (T lc ll lk lv lr)) as [[? ?]|]); eapply rem_node_valid; eauto|].
-    destruct (max_kv K V (T lc ll lk lv lr)) as [[pk pv]|]; [|eapply rem_node_valid; eauto].
-    destruct (max_node_nonE (T lc ll lk lv lr) (F K V DL xc pk pv (T rc rl rk rv rr) :: p))
-      as (c & l & k & v & r & q & Hm); [congruence|].
-    rewrite Hm.
-    destruct (foc_left_any _ _ _ _ _ _ _ pk pv Hf) as (m & Hf2).
-    eapply max_node_foc in Hm as (m' & Hm'); eauto.
-    eapply rem_node_valid; eauto.
+    destruct xr as [|rc rl rk rv rr]; [eapply rem_node_valid; eauto|].
+    destruct (donor_is_succ K V use_succ _ _).
+    - eapply rem_succ_valid; eauto. congruence.
+    - eapply rem_pred_valid; eauto. congruence.
   Qed.
 
   (* ------------------------------------------------------------ height bound *)
@@ -409,6 +477,19 @@ Section Balance.
         apply IHr in H. simpl length in H. simpl height in *. lia.
   Qed.
 
+  Lemma min_node_depth : forall t p x p',
+    min_node K V t p = (x, p') -> length p' + height x <= length p + height t.
+  Proof.
+    induction t as [|c l IHl k v r IHr]; intros p x p' H.
+    - simpl in H. inv H. lia.
+    - destruct l as [|lc ll lk lv lr].
+      + simpl in H. inv H. lia.
+      + remember (T lc ll lk lv lr) as tl eqn:Etl.
+        assert (Hm : min_node K V (T c tl k v r) p = min_node K V tl (F K V DL c k v r :: p))
+          by (subst tl; reflexivity).
+        rewrite Hm in H. apply IHl in H. simpl in *. lia.
+  Qed.
+
   Lemma rb_height_bound : forall t, rb_tree t -> 2 ^ height t <= (size t + 1) ^ 2.
   Proof.
     intros t (Hc & n & Hn). pose proof (rbh_size _ _ Hn) as Hs. pose proof (rbh_height _ _ Hn) as Hh.
@@ -433,5 +514,12 @@ Section Balance.
     length p' <= length p + height (T c l k v r).
   Proof.
     intros p c l k v r k' v' x p' H. apply max_node_depth in H. simpl in *. lia.
+  Qed.
+
+  Lemma rb_succ_depth : forall p c l k v r k' v' x p',
+    min_node K V r (F K V DR c k' v' l :: p) = (x, p') ->
+    length p' <= length p + height (T c l k v r).
+  Proof.
+    intros p c l k v r k' v' x p' H. apply min_node_depth in H. simpl in *. lia.
   Qed.
 End Balance.
